@@ -9,6 +9,7 @@ import (
 	"os"
 	"os/exec"
 	"regexp"
+	"slices"
 	"sort"
 	"strconv"
 	"strings"
@@ -617,7 +618,8 @@ func C30(c *Ctx) {
 var bceRe = regexp.MustCompile(`^(.*\.go):(\d+):(\d+): Found (IsInBounds|IsSliceInBounds)`)
 
 func C31(c *Ctx) {
-	c.Note("exact argument parsing of well-formed frames; line length (ReadString grows with the bytes received, which is proportional); slow-loris style resource holding")
+	c.Note("exact argument parsing of well-formed frames beyond the separator rule below; line length (ReadString grows with the bytes received, which is proportional); slow-loris style resource holding")
+	inlineSplitGroup(c, "K2.inline-arguments-split-on-ascii-blanks")
 	const r1 = "K7.input-sized-allocation"
 	c.Rule(r1, "in cmd/nokv-redis a length parsed from the request (strconv.Atoi) sizes a make() only through min(·, constant) or behind a rejecting comparison")
 	fs := taintScan(c.P, map[string]bool{Module + "/cmd/nokv-redis": true})
@@ -1083,5 +1085,38 @@ func raftRMWGroup(c *Ctx, rule string) {
 			}
 		}
 		c.Decide(ok, rule, key(fn, "GetResponse.Error→error-return"), fn.Pos(), len(ge)+1, "a read that met a lock is reported as a conflict", "Client.BatchGet hands a GetResponse whose Error is set (the read met a lock: no value) to its caller like a hit: the Redis raft backend reads the locked key as present with an empty value – GET returns \"\" and INCR starts from 0")
+	}
+}
+
+// inlineSplitGroup (C31): "every well-formed inline command is parsed into exactly its
+// arguments".  The inline separator is the ASCII blank; the Unicode-aware splitters of the
+// standard library (strings.Fields, bytes.Fields, anything built on unicode.IsSpace) also cut an
+// argument at U+3000, U+00A0, U+2028 ... once the line contains a non-ASCII byte.
+func inlineSplitGroup(c *Ctx, rule string) {
+	c.Rule(rule, "parseRESP and the cmd/nokv-redis functions it calls split an inline command without strings.Fields / bytes.Fields / unicode.IsSpace (also inside a FieldsFunc predicate): the separator test compares with ASCII blanks only")
+	fn := c.Fn(redisPkg, "parseRESP")
+	if fn == nil {
+		return
+	}
+	grp := []*ssa.Function{fn}
+	for i := 0; i < len(grp) && len(grp) < 12; i++ {
+		grp = append(grp, grp[i].AnonFuncs...)
+		for _, cs := range Calls(grp[i], false, func(*ssa.CallCommon) bool { return true }) {
+			if cal := cs.Common().StaticCallee(); cal != nil && cal.Blocks != nil && cal.Pkg == fn.Pkg && !slices.Contains(grp, cal) {
+				grp = append(grp, cal)
+			}
+		}
+	}
+	bad := Named("strings.Fields", "bytes.Fields", "unicode.IsSpace")
+	n, splits := 0, 0
+	for _, g := range grp {
+		for _, b := range Calls(g, false, bad) {
+			n++
+			c.Fail(rule, key(g, fmt.Sprintf("unicode-aware-split[%d]", n)), b.Pos(), 1, "%s is used on the request line: it splits on every Unicode space once the line holds a non-ASCII byte, so an inline argument containing U+3000 / U+00A0 / U+2028 is cut in two (the same bytes sent as a RESP array are one argument)", CalleeObj(b.Common()).Name())
+		}
+		splits += len(Calls(g, false, Named("strings.FieldsFunc", "bytes.FieldsFunc", "strings.Split", "strings.SplitN", "bytes.Split", "strings.IndexByte", "bytes.IndexByte", "strings.Cut")))
+	}
+	if n == 0 {
+		c.Pass(rule, key(fn, "ascii-only-split"), fn.Pos(), len(grp)+1, "no Unicode-aware splitter on the request line (%d functions, %d explicit split sites)", len(grp), splits)
 	}
 }
